@@ -83,7 +83,9 @@ class WsConnA:
             if self.accepted or self.server_closed:
                 self.proto.append('accept in state accepted=%s closed=%s' % (
                     self.accepted, self.server_closed))
-            if self.disconnect_delivered:
+            if self.disconnect_delivered or getattr(self, 'accept_fails',
+                                                    False):
+                self.server_closed = True
                 raise ClientGone('peer gone')
             self.accepted = True
             self.accept_clk = self.sim.tick()
